@@ -372,7 +372,7 @@ func c01ExecTCP(c c01Case, st *lab.Stats) *lab.Fail {
 		st.Inconclusive(err.Error())
 		return nil
 	}
-	defer cl.Close()
+	defer cl.Abort()
 	var buf []byte
 	for _, r := range c.Reqs {
 		buf = append(buf, r.Bytes()...)
